@@ -233,6 +233,9 @@ void runOnce(const Scenario &sc, const std::vector<int> &prefix, int bound, bool
         if (enabled.size() > 1) {
             if (sc.prune && visited && e.points.size() >= prefix.size()) {
                 uint64_t k = mix(stateHash(), (uint64_t)(e.current + 1));
+                // stores are not part of the read history: the per-process step counts tell apart two
+                // positions of a process between which it only wrote values that were already there
+                for (auto &p : e.procs) k = mix(k, p.steps);
                 int rem = bound - e.devs;
                 auto it = visited->find(k);
                 if (it != visited->end() && it->second >= rem) { e.pruned = true; e.aborted = true; ++st.pruned; break; }
@@ -305,6 +308,7 @@ void note(const std::string &ev) {
 }
 void local(uint64_t v) { if (E && E->running >= 0) E->procs[E->running].rh = mix(E->procs[E->running].rh, v); }
 uint64_t stepIndex() { return E ? E->steps : 0; }
+uint64_t procSteps() { return (E && E->running >= 0) ? E->procs[E->running].steps : 0; }
 void waitUntil(const std::function<bool()> &pred) {
     Exec &e = *E;
     if (e.running < 0) return;
@@ -319,7 +323,7 @@ void explore(const Scenario &sc, Stats &st, double deadlineS) {
     std::unordered_set<uint64_t> states;
     stateSet = sc.stateBytes ? &states : nullptr;
     double dl = deadlineS > 0 ? (double)time(nullptr) + deadlineS : 0;
-    for (int b = 0; b <= sc.maxDeviations; ++b) {
+    for (int b = sc.startBound > 0 ? sc.startBound : 0; b <= sc.maxDeviations; ++b) {
         std::unordered_map<uint64_t, int> vis;
         visited = sc.prune ? &vis : nullptr;
         Dfs d{sc, st, b, dl};
@@ -378,6 +382,16 @@ void vsched_point(const volatile void *addr, int kind) {
     if (E->tracing) {
         static const char *k[] = {"load", "store", "rmw"};
         char b[96]; snprintf(b, sizeof b, "  [%llu] p%d: %s @%p\n", (unsigned long long)E->steps, E->running, k[kind], (void *)addr);
+        E->trace += b;
+    }
+    switchToMain();
+}
+
+void vsched_after(const volatile void *addr) {
+    using namespace VS;
+    if (!E || E->running < 0 || !E->sc->pointAfterAtomics) return;
+    if (E->tracing) {
+        char b[96]; snprintf(b, sizeof b, "  [%llu] p%d: done @%p\n", (unsigned long long)E->steps, E->running, (void *)addr);
         E->trace += b;
     }
     switchToMain();
